@@ -377,10 +377,11 @@ func (p *poller) readWriteLoop() {
 
 					if ev.Events&epollEventsError != 0 {
 						if g.onRead == nil &&
-							ev.Events&(syscall.EPOLLERR|syscall.EPOLLHUP) == 0 &&
+							ev.Events&syscall.EPOLLERR == 0 &&
 							(c.typ == ConnTypeTCP || c.typ == ConnTypeUnix) &&
 							hasUnreadData(fd) {
-							// the peer has shut down its side, but data it sent
+							// the peer has shut down its side (a unix socket
+							// closed by the peer reports EPOLLHUP), but data it sent
 							// before is still unread (read times per loop
 							// exhausted, or an async read is on the way): the
 							// connection is closed once that data has been read.
